@@ -135,6 +135,7 @@ func main() {
 	}
 	extractCloneBracket(*repo, *out, replace)
 	extractRemoteChans(*repo, *out, replace)
+	patchWaitAction(*repo, *out, replace)
 	keys := make([]string, 0, len(replace))
 	for k := range replace {
 		keys = append(keys, k)
@@ -296,6 +297,41 @@ func extractRemoteChans(repo, out string, replace map[string]string) {
 		die("%v", err)
 	}
 	replace[filepath.Join(repo, "backend", "remote", "zz_verif_chans.go")] = dst
+}
+
+// patchWaitAction puts a hook in front of the one blocking wait of the replica's registration loop
+// (sync.Task.AddReplica: wait for the controller's action or for the 5 s retry ticker) so that engine E-F can run that
+// loop, on several replicas of one process, under step control: with the hook unset the original select runs.  The
+// statement is matched as text; if it is not found exactly once nothing is patched and the generated constant
+// sync.VerifWaitActionHooked is false (the bootstrap scenario of C09 then reports that it could not run - it never
+// turns a change of that statement into an alarm).
+func patchWaitAction(repo, out string, replace map[string]string) {
+	target := filepath.Join(repo, "sync", "sync.go")
+	srcPath := target
+	if r, ok := replace[target]; ok {
+		srcPath = r
+	}
+	old := "\t\tselect {\n\t\tcase <-ticker.C:\n\t\t\tlogrus.Info(\"Timed out waiting for response from controller, will retry\")\n\t\t\tgoto Register\n\t\tcase action = <-replica.ActionChannel:\n\t\t}\n"
+	neu := "\t\tif va, vtick, vhandled := inject.WaitAction(replicaAddress); vhandled {\n\t\t\tif vtick {\n\t\t\t\tlogrus.Info(\"Timed out waiting for response from controller, will retry\")\n\t\t\t\tgoto Register\n\t\t\t}\n\t\t\taction = va\n\t\t} else {\n\t" + strings.Replace(strings.TrimSuffix(old, "\n"), "\n", "\n\t", -1) + "\n\t\t}\n"
+	hooked := false
+	if src, err := os.ReadFile(srcPath); err == nil && strings.Count(string(src), old) == 1 && strings.Contains(string(src), "github.com/openebs/jiva/error-inject") {
+		dst := filepath.Join(out, "sync", "sync.go")
+		os.MkdirAll(filepath.Dir(dst), 0755)
+		if err := writeIfChanged(dst, []byte(strings.Replace(string(src), old, neu, 1))); err != nil {
+			die("%v", err)
+		}
+		replace[target] = dst
+		hooked = true
+	} else {
+		fmt.Fprintf(os.Stderr, "gen: wait-action hook not applied (statement not found exactly once in sync/sync.go)\n")
+	}
+	code := fmt.Sprintf("//go:build verif\n\n// Code generated by /verif/tools/gen; DO NOT EDIT.\npackage sync\n\n// VerifWaitActionHooked: the registration loop's wait statement was found and hooked.\nconst VerifWaitActionHooked = %v\n", hooked)
+	dst := filepath.Join(out, "sync", "zz_verif_flags.go")
+	os.MkdirAll(filepath.Dir(dst), 0755)
+	if err := writeIfChanged(dst, []byte(code)); err != nil {
+		die("%v", err)
+	}
+	replace[filepath.Join(repo, "sync", "zz_verif_flags.go")] = dst
 }
 
 func writeIfChanged(p string, b []byte) error {
